@@ -227,3 +227,15 @@ Definition add_claims (claims : list (list N * cval)) (c : ctx) : ctx :=
 
 (* ServeHTTP, patrouter.go:46-48: the variables are attached only when there are some *)
 Definition serve_ctx (ps : params) (c : ctx) : ctx := match ps with [] => c | _ => with_vars ps c end.
+
+(* ---- CORS (api.WithCors / WithCustomCors, server.go:124-140, 295-309; internal/cors/handler.go) ---- *)
+(* the server's router is wrapped: cors.Middleware answers EVERY request whose method is OPTIONS with
+   204 itself (whatever its headers, whatever is registered) and hands every other request - whatever
+   Origin / Access-Control-Request-* headers it carries - to the wrapped router unchanged.  The
+   router's not-allowed handler is replaced by cors.NotAllowedHandler, which answers 404 (no Allow
+   header) to non-OPTIONS requests. *)
+Inductive canswer :=
+| CPreflight                 (* 204 by the cors middleware, no handler *)
+| CRouted (o : outcome).     (* the wrapped patRouter's outcome; NotAllowed is answered 404 *)
+Definition cors_serve (tb : table) (m : string) (p : list N) : canswer :=
+  if String.eqb m "OPTIONS" then CPreflight else CRouted (route_req tb m p).
